@@ -1026,10 +1026,17 @@ func checkCollectionDetection(p *Prog, r *Report, f *ssa.Function) {
 			}
 			return 0, true, true
 		}
-		if _, last, ok := isFragment(lk.Index); !ok || !last {
+		k, last, ok := isFragment(lk.Index)
+		if !ok {
 			return
 		}
 		n++
+		if !last {
+			// a fixed fragment: NewURL names the relationship by the last fragment
+			// (/type/id/rel and /type/id/relationships/rel alike)
+			r.bad("C07.collection-detection", "NewParams:"+p.describe(lk)+":last-fragment", p.pos(lk.Pos()), fmt.Sprintf("the collection question is answered from fragment %d instead of the last fragment: for /type/id/relationships/name (which NewURL accepts and reads from the last fragment) the relationship is not the one asked about, or the question is not asked at all, so a to-many relationship URL gets no sorting rules", k))
+			return
+		}
 		// the type: GetType(<fragment 0>)
 		var gt *ssa.Call
 		if c, _ := callOf(base); c != nil {
